@@ -988,6 +988,19 @@ class TermAnalysis(Analysis):
                 for k2 in self.prog.mro(self.cls):
                     if e.attr in k2.nested:
                         return ("global", k2.nested[e.attr].qual)
+                # a property the rules do not know (cut out of a condition by a refactoring): its getter applied to the current state
+                pm = self.prog.lookup_method(self.cls, e.attr)
+                if pm is not None and pm.kind == "property" and pm.params and not self.prog.is_known(pm.qual) and pm.qual != self.fn.qual \
+                        and self.inline_depth < 4 and isinstance(e.ctx, ast.Load):
+                    try:
+                        rt = summarize(self.prog, pm, {pm.params[0]: base}, depth=self.inline_depth + 1).return_term()
+                    except (AnalysisError, RecursionError):
+                        rt = None
+                    if rt is not None:
+                        recv = base[1]
+                        mapping = {("attr", base, k[len(recv) + 1:]): v for k, v in st.env.items()
+                                   if k.startswith(recv + ".") and "." not in k[len(recv) + 1:] and v != ("attr", base, k[len(recv) + 1:])}
+                        return replace(rt, mapping) if mapping else rt
             return self._attr(base, e.attr)
         if isinstance(e, ast.Subscript):
             base = self.ev(e.value, st)
